@@ -6,7 +6,7 @@
    theorems are generic in the bit width.  *_refuted / *_partial / *_iff: the statement at full strength is false
    of the unchanged plugin (witness), and holds exactly / at least on the stated domain. *)
 From Coq Require Import ZArith Bool List.
-From J2O Require Import PyLib Dtype Tensor Batch Reshape Graph Lowering LoweringSem OnnxInt Kernels Lift LiftProg LiftReduce LiftStruct.
+From J2O Require Import PyLib Dtype Tensor Batch Reshape Graph Lowering LoweringSem OnnxInt Kernels Lift LiftProg LiftReduce LiftCall LiftStruct.
 Import ListNotations.
 Open Scope Z_scope.
 
@@ -730,3 +730,53 @@ Theorem C01K_iota_kernels_ok : forall sb shape dim n,
   gkern_ok ssem (gk_iota sb shape dim) /\ gkern_ok ssem (gk_iota1 sb n) /\ gkern_ok ssem (gk_arange n).
 Proof. intros. split; [apply gk_iota_ok | split; [apply gk_iota1_ok | apply gk_arange_ok]]. Qed.
 Print Assumptions C01K_iota_kernels_ok.
+(* jnp.sum / jnp.prod on bool and small integers: JAX promotes to the default integer width; the plugin casts to that type and
+   reduces there (Cast -> ReduceSum / ReduceProd).  Exact without any side condition: both sides wrap in the work type *)
+Theorem C01K_reduce_sum_cast_correct : forall sbw l, 0 < snd sbw -> o_reduce_sum sbw (map (o_cast sbw) l) = jax_reduce_sum sbw l.
+Proof. exact reduce_sum_cast_correct. Qed.
+Print Assumptions C01K_reduce_sum_cast_correct.
+Theorem C01K_reduce_prod_cast_correct : forall sbw l, 1 < snd sbw -> o_reduce_prod sbw (map (o_cast sbw) l) = jax_reduce_prod sbw l.
+Proof. exact reduce_prod_cast_correct. Qed.
+Print Assumptions C01K_reduce_prod_cast_correct.
+Theorem C01K_reduce_cast_kernels_ok : forall rk sbw mask, (rk = RSum \/ rk = RProd) -> 0 <= snd sbw ->
+  gkern_ok ssem (gk_reduce_cast rk sbw mask) /\ gkern_ok ssem (gk_reduce_cast_bool rk sbw mask).
+Proof. intros. split; [now apply gk_reduce_cast_ok | now apply gk_reduce_cast_bool_ok]. Qed.
+Print Assumptions C01K_reduce_cast_kernels_ok.
+(* ================================================================ nested jit / pjit inside the program-level theorem (LiftCall.v)
+   A call equation carries its body; call_plugin lowers the body IN PLACE with the same dispatcher, in a fresh variable scope
+   (only the body's invars are bound, to the operands' graph values), and binds the outvar to the body's result; psem_call
+   evaluates the body.  Adding such a call to ANY registry that meets the plugin contract gives a registry that meets it
+   (generic in the value type and both semantics); nested calls are added innermost first. *)
+Theorem C01K_call_extends_contract : forall (V : Type) gsem psem reg (lit : V),
+  eqn_contract V psem gsem reg lit ->
+  forall key c, eqn_contract V (ext_psem V psem reg lit key c) gsem (ext_reg reg key c) lit.
+Proof. exact extend_contract. Qed.
+Print Assumptions C01K_call_extends_contract.
+(* C01K_struct_program_correct for programs whose jit bodies are NOT flattened: l = the primitives, cs = the calls *)
+Theorem C01K_struct_nested_program_correct : forall l cs jp s s', slower_jaxpr (snd (nsem l cs)) s jp = Ok s' ->
+  forall r g r', related cten s r g -> jeval cten (fst (nsem l cs)) slit jp r = Some r' ->
+  exists new g', s_nodes s' = s_nodes s ++ new /\ eval cten ssem new g = Some g' /\ genv_le cten g g' /\ related cten s' r' g'.
+Proof. exact struct_nested_program_correct. Qed.
+Print Assumptions C01K_struct_nested_program_correct.
+(* ================================================================ argmax / argmin with ties (LiftReduce.v)
+   first_max l i: i is in range, l[i] bounds every element, every earlier element is strictly smaller — "the FIRST index of
+   the maximum"; it determines i.  ONNX ArgMax / ArgMin (select_last_index = 0) is one scan that replaces the best so far
+   only by a strictly better element; JAX is the position of the first occurrence of the maximum / minimum. *)
+Theorem C01K_argmax_first_index_unique : forall l i i', first_max l i -> first_max l i' -> i = i'.
+Proof. exact first_max_unique. Qed.
+Print Assumptions C01K_argmax_first_index_unique.
+Theorem C01K_argmax_meets_spec : forall l, l <> [] -> first_max l (o_argmax l) /\ first_max l (jax_argmax l).
+Proof. intros l H. split; [now apply o_argmax_spec | now apply jax_argmax_spec]. Qed.
+Print Assumptions C01K_argmax_meets_spec.
+Theorem C01K_argmax_correct : forall l, l <> [] -> o_argmax l = jax_argmax l.
+Proof. exact argmax_correct. Qed.
+Print Assumptions C01K_argmax_correct.
+Theorem C01K_argmin_correct : forall l, l <> [] -> o_argmin l = jax_argmin l.
+Proof. exact argmin_correct. Qed.
+Print Assumptions C01K_argmin_correct.
+(* tensor level (one axis of any rank; ArgMax / ArgMin then Cast to the index type, or Identity for int64); side condition:
+   the extent of the axis fits the index type *)
+Theorem C01K_arg_kernels_ok : forall rk sbi mask, (rk = RArgMax \/ rk = RArgMin) -> 0 <= snd sbi ->
+  gkern_ok ssem (gk_arg rk sbi mask) /\ gkern_ok ssem (gk_arg_id rk mask).
+Proof. intros. split; [now apply gk_arg_ok | now apply gk_arg_id_ok]. Qed.
+Print Assumptions C01K_arg_kernels_ok.
